@@ -22,6 +22,12 @@ A `chan` case holds two channels (`Chan.Pair`): `b <op>` addresses the second on
 `a.senders[i].clone_from(&b.senders[j])` (answer `sender <new id in the channel of j>`, `woke` = the
 wake-up caused by the drop of the handle's old value).
 
+Wakers whose **drop** has a side effect: `availG h g` asks with the waker of a task that owns guard `g`
+(waker `100 + g`; while it is registered `g` belongs to the task: `drop g`, `dbgG g`, `availG h g` are
+`bad-op`); displaced un-woken by the next task answered "unavailable" it releases `g`:
+`avail 0 freed=<g> … woke=…` (`Counter.stepLine`).  In the `lw` engine `reg 6` registers a waker whose
+drop (un-woken) calls `wake()` on the same `LocalWaker` (`LocalWaker.stepLine`).
+
 Re-entrant wakers: `avail h w` with `w = 6, 7` registers a *taking* inline waker — woken by a guard drop
 it polls inline, takes the freed slot (`get()`), and the next task asks `available` with the counting
 waker `w - 4`, all inside `wake()`: `dropped saw=.. took=<guard> next=<b> woke=w` (`Counter.stepRe`).
@@ -113,18 +119,52 @@ def capNum (s : String) : Option Nat :=
     | some n => if n < 18446744073709551616 then some n else none
     | none => none
 
-/-- a guard drop with the callback of the task it woke: `dropped [saw=t,b] [took=<guard> next=<b>] woke=w` -/
-def counterObsRe : List Counter.Obs → String
-  | [o] => counterObs o
-  | [.dropped w saw, .guard id, .avail b] =>
-    "dropped" ++ (match saw with | some (n, b) => s!" saw={n},{b01 b}" | none => "") ++ s!" took={id} next={b01 b}" ++ wokeStr w
-  | _ => "?"
+def wokeList (ws : List Nat) : String :=
+  if ws.isEmpty then " woke=-" else " woke=" ++ ",".intercalate (ws.map toString)
 
-/-- a wake with the callback of the waker it woke: `done [rereg=<was>] woke=w` -/
-def lwObsRe : List LocalWaker.Obs → String
-  | [o] => lwObs o
-  | [.woke w, .registered was] => s!"done rereg={b01 was}" ++ wokeStr w
-  | _ => "?"
+/-- insertion sort (ascending): the harness lists the woken ids in ascending order -/
+def sortNat : List Nat → List Nat
+  | [] => []
+  | x :: t => let r := sortNat t; (r.filter (· < x)) ++ [x] ++ (r.filter (fun y => !(y < x)))
+
+/-- one protocol line of the counter: the main observation, then what happened inside it —
+`freed=<g>` (a displaced guard-owning waker released its guard), `saw=t,b` (an inline poll inside a
+wake-up), `took=<guard> next=<b>` (a taking task), and all wakers woken -/
+def counterObsRe (os : List Counter.Obs) (freed : Option Nat) : String :=
+  match os with
+  | [] => "?"
+  | o :: rest =>
+    let head := match o with
+      | .guard id => s!"guard {id}"
+      | .dropped _ _ => "dropped"
+      | .avail b => s!"avail {b01 b}"
+      | .handle id => s!"handle {id}"
+      | .total n => s!"total {n}"
+      | .handleDropped => "dropped"
+      | .debug g n c =>
+        "dbg " ++ (if g then "CounterGuard" else "Counter") ++ "(Counter { count: " ++ toString n ++ ", capacity: " ++
+          toString c ++ ", task: LocalWaker })"
+    let fr := match freed with | some g => s!" freed={g}" | none => ""
+    let saws := (o :: rest).filterMap (fun x => match x with | .dropped _ (some (n, b)) => some s!" saw={n},{b01 b}" | _ => none)
+    let took := match rest.reverse with
+      | .avail b :: .guard id :: _ => s!" took={id} next={b01 b}"
+      | _ => ""
+    let wokes := (o :: rest).filterMap (fun x => match x with | .dropped (some w) _ => some w | _ => none)
+    head ++ fr ++ String.join saws ++ took ++ wokeList (sortNat wokes)
+
+/-- one protocol line of the `lw` engine: `registered b | done | took w`, then `rereg=<was>` of a
+re-entrant callback, and all wakers woken -/
+def lwObsRe (os : List LocalWaker.Obs) : String :=
+  match os with
+  | [] => "?"
+  | o :: rest =>
+    let head := match o with
+      | .registered b => s!"registered {b01 b}"
+      | .woke _ => "done"
+      | .took w => s!"took {optStr w}"
+    let rereg := rest.filterMap (fun x => match x with | .registered b => some s!" rereg={b01 b}" | _ => none)
+    let wokes := (o :: rest).filterMap (fun x => match x with | .woke (some w) => some w | _ => none)
+    head ++ String.join rereg ++ wokeList (sortNat wokes)
 
 def counterOp : List String → Option Counter.Op
   | ["acquire", h] => (num h).map .acquire
@@ -133,6 +173,10 @@ def counterOp : List String → Option Counter.Op
   | ["dropP", g] => (num g).map .drop
   | ["avail", h, w] => match num h, num w with
     | some h, some w => if w < nWakers + nInline then some (.available h w) else none
+    | _, _ => none
+  -- `availG h g`: asked by a task that owns guard `g`; its waker (`100 + g`), dropped un-woken, releases `g`
+  | ["availG", h, g] => match num h, num g with
+    | some h, some g => some (.available h (100 + g))
     | _, _ => none
   | ["clone", h] => (num h).map .clone
   | ["total", h] => (num h).map .total
@@ -143,7 +187,7 @@ def counterOp : List String → Option Counter.Op
 
 def lwOp : List String → Option LocalWaker.Op
   | ["reg", w] => match num w with
-    | some w => if w < nWakers + 2 then some (.register w) else none
+    | some w => if w < nWakers + 3 then some (.register w) else none
     | none => none
   | ["wake"] => some .wake
   | ["take"] => some .take
@@ -221,12 +265,17 @@ def step (st : State) (line : String) : State × String :=
     | .idle => (st, "bad-op")
     | .counter s => match counterOp ws with
       | none => (st, "bad-op")
-      | some op => match Counter.stepRe s op with
+      | some op => match Counter.stepLine s op with
         | none => (st, "bad-op")
-        | some (s', os) => (.counter s', counterObsRe os)
+        | some (s', os) =>
+          -- a displaced guard-owning waker (`100 + g`) released its guard inside this `avail`
+          let freed := match op, os, s.ctr.task.waker with
+            | .available _ _, .avail false :: _, some d => if Counter.guardWaker d then some (d - 100) else none
+            | _, _, _ => none
+          (.counter s', counterObsRe os freed)
     | .lw l => match lwOp ws with
       | none => if ws = ["dbg"] then (st, "dbg LocalWaker" ++ wokeStr none) else (st, "bad-op")
-      | some op => (.lw (LocalWaker.stepRe l op).1, lwObsRe (LocalWaker.stepRe l op).2)
+      | some op => (.lw (LocalWaker.stepLine l op).1, lwObsRe (LocalWaker.stepLine l op).2)
     | .chan p => match pairOp ws with
       | none => (st, "bad-op")
       | some pop => match Chan.Pair.step p pop with
